@@ -29,10 +29,10 @@ import (
 
 type c18Case struct {
 	K     string  `json:"k,omitempty"` // "" = schedule; "footprint" = state footprint of two ops
-	Progs [][]int `json:"programs"` // per thread: op indices
-	Sched []int   `json:"schedule"` // explorer choice vector
+	Progs [][]int `json:"programs"`    // per thread: op indices
+	Sched []int   `json:"schedule"`    // explorer choice vector
 	Bound int     `json:"bound"`
-	Fine  bool    `json:"fine_grained"` // accesses to package-level state and lock operations are scheduling points too
+	Fine  bool    `json:"fine_grained"`                // accesses to package-level state and lock operations are scheduling points too
 	Step  bool    `json:"statement_grained,omitempty"` // every statement of the library is a scheduling point (implies Fine)
 }
 
@@ -386,7 +386,9 @@ func c18One(c *engine.Ctx, progs [][]int, r *engine.Run, bound int, lvl int) {
 	res, s, intact := c18Execute(progs, r, lvl)
 	c.Transitions += int64(s.Points)
 	c.Traces++
-	cs := func() c18Case { return c18Case{Progs: progs, Sched: r.Choices(), Bound: bound, Fine: fine, Step: lvl >= 2} }
+	cs := func() c18Case {
+		return c18Case{Progs: progs, Sched: r.Choices(), Bound: bound, Fine: fine, Step: lvl >= 2}
+	}
 	ops := c18Ops()
 	names := func() string {
 		var p []string
